@@ -132,6 +132,26 @@ def check_n(args):
                     continue
                 if sh != lists[i]:
                     bad('shard-differs-from-split', f'shard({k},{i})={sh[:8]} split[{i}]={lists[i][:8]}', k, i)
+        if n <= 24:
+            # the returned list belongs to the caller: whatever is done to it, a later split / shard answers the same
+            for what in ('reverse', 'clear', 'replace'):
+                try:
+                    mine = ds.split(k)
+                    if what == 'reverse':
+                        mine.reverse()
+                    elif what == 'clear':
+                        del mine[:]
+                    else:
+                        mine[0] = mine[-1]
+                    again = [list(p) for p in ds.split(k)]
+                    sh0 = list(ds.shard(k, 0))
+                except Exception as e:      # noqa: BLE001
+                    bad('split-after-caller-edit-raises', f'after {what} of an earlier result: {type(e).__name__}: {e}', k)
+                    continue
+                st['transitions'] += 1
+                if again != lists or sh0 != lists[0]:
+                    bad('split-depends-on-earlier-result', f'after the caller did {what} on the list an earlier split({k}) '
+                                                           f'returned, split gives {again[:3]}.., shard({k},0) {sh0[:6]}', k)
         idxs = range(k) if shard_all else sorted({0, k // 2, k - 1})
         for i in idxs:
             st['transitions'] += 1
@@ -142,6 +162,51 @@ def check_n(args):
                 continue
             if sh != lists[i]:
                 bad('shard-differs-from-split', f'shard({k},{i})={sh[:8]} split[{i}]={lists[i][:8]}', k, i)
+    return st, viols
+
+
+def check_boundary(args):
+    """Sizes around 2**7, 2**8, 2**15, 2**16 (index arrays of a narrower integer type wrap there), for a list, a batched
+    and a concatenated dataset; a few shard counts, full partition oracle."""
+    n, kind = args
+    import lazy_dataset
+    st = collections.Counter()
+    viols = []
+    if kind == 'list':
+        ds = lazy_dataset.new(list(range(n)))
+    elif kind == 'batch2':
+        ds = lazy_dataset.new(list(range(2 * n))).batch(2)
+    elif kind == 'batch3-map':
+        ds = lazy_dataset.new(list(range(3 * n - 1))).map(_ident).batch(3)
+    else:
+        h = n // 2
+        ds = lazy_dataset.new(list(range(h))).concatenate(lazy_dataset.new(list(range(h, n))))
+    full = list(ds)
+    if len(full) != n:
+        return st, [common.Violation('C15', 'boundary/setup', f'{kind} n={n}: iteration gives {len(full)}',
+                                     {'engine': 'boundary', 'n': n, 'kind': kind}).to_json()]
+    for k in sorted(({1, 2, 3, 7, 127, 128, 129, 255, 256, 257} | ({n - 1, n} if n <= 1000 else set())) & set(range(1, n + 1))):
+        st['states'] += 1
+        try:
+            parts = ds.split(k)
+            lists = [list(p) for p in parts]
+            byidx = [parts[j][len(lists[j]) - 1] for j in sorted({0, k // 2, k - 1}) if lists[j]]
+            want = [lists[j][-1] for j in sorted({0, k // 2, k - 1}) if lists[j]]
+            sh = list(ds.shard(k, k - 1))
+        except Exception as e:      # noqa: BLE001
+            viols.append(common.Violation('C15', 'boundary/raises', f'{kind} n={n} k={k}: {type(e).__name__}: {e}',
+                                          {'engine': 'boundary', 'n': n, 'kind': kind, 'k': k}).to_json())
+            continue
+        st['transitions'] += k
+        sizes = [len(x) for x in lists]
+        flat = [x for li in lists for x in li]
+        if flat != full or max(sizes) - min(sizes) > 1 or len(lists) != k or sh != lists[-1] or byidx != want:
+            firstbad = next((i for i, (a, b) in enumerate(zip(flat, full)) if a != b), None)
+            viols.append(common.Violation(
+                'C15', 'boundary/not-a-partition',
+                f'{kind} n={n} k={k}: sizes {sizes[:4]}.., first difference at position {firstbad}: '
+                f'{flat[firstbad] if firstbad is not None else None} instead of {full[firstbad] if firstbad is not None else None}',
+                {'engine': 'boundary', 'n': n, 'kind': kind, 'k': k}).to_json())
     return st, viols
 
 
@@ -162,7 +227,14 @@ def run(tier):
     for st, viols in common.pmap(check_n, tasks):
         total.update(st)
         res.violations.extend(common.Violation.from_json(v) for v in viols)
-    res.violations.sort(key=lambda v: (v.replay['n'], v.replay['k']))
+    bsizes = [127, 128, 129, 255, 256, 257, 300] + ([32767, 32768, 32769, 65535, 65536, 65537] if tier == 'thorough'
+                                                      else [32769, 65537])
+    btasks = [(n, kind) for n in bsizes for kind in ('list', 'batch2', 'batch3-map', 'concat')]
+    for st, viols in common.pmap(check_boundary, btasks):
+        total.update(st)
+        res.violations.extend(common.Violation.from_json(v) for v in viols)
+    res.coverage['boundary_sizes'] = bsizes
+    res.violations.sort(key=lambda v: (v.replay['n'], v.replay.get('k') or 0))
     res.coverage.update(
         states=total['states'], transitions=total['transitions'], traces_validated_against_impl=total['states'],
         exhaustive=True,
@@ -177,7 +249,10 @@ def run(tier):
 def replay(data):
     r = data['replay']
     res = common.Result()
-    st, viols = check_n((r['n'], True, r['kind']))
+    if r.get('engine') == 'boundary':
+        st, viols = check_boundary((r['n'], r['kind']))
+    else:
+        st, viols = check_n((r['n'], True, r['kind']))
     res.violations = [common.Violation.from_json(v) for v in viols]
     res.coverage.update(states=st['states'], transitions=st['transitions'])
     return res
